@@ -222,6 +222,7 @@ macro_rules! check_pts {
 }
 
 pub mod regime;
+pub mod translate;
 
 /// Exactly 2^k in the domain (k may be negative; |k| must stay inside the normal range of the float type).
 pub(crate) fn p2<S: Dom>(k: i32) -> S {
@@ -676,7 +677,7 @@ fn tangent_case<S: XDom, C: Curve<S, N, D>, const N: usize, const D: usize>(tp: 
     let mut p: [[S; D]; N] = gen_points(tp, cx);
     let mut t: S = gen_param(tp);
     tangent_fix(tp, cx, &mut p, &mut t);
-    tangent_body::<S, C, N, D>(cx, &p, 0, t)
+    tangent_body::<S, C, N, D>(cx, &p, &[S::zero(); D], 0, t)
 }
 
 /// Exact domain only: move the last control point (and t away from 0) so that |C'(t)| is rational.
@@ -714,9 +715,10 @@ pub(crate) fn tangent_fix<S: XDom, const N: usize, const D: usize>(tp: &mut Tape
     }
 }
 
-/// normalized_tangent on the curve with control points `p * 2^k` (the tangent is a pure direction, so it must not
-/// depend on k; the derivative is scaled back exactly).
-pub(crate) fn tangent_body<S: XDom, C: Curve<S, N, D>, const N: usize, const D: usize>(cx: &mut Cx, p: &[[S; D]; N], k: i32, t: S) -> CaseResult {
+/// normalized_tangent on the curve with control points `(p + off) * 2^k` (the tangent is a pure direction, so it
+/// must depend neither on k nor on the common offset; the derivative is scaled back exactly). The caller guarantees
+/// that `p + off` is exactly representable; all tolerances are relative to the shape `p`, not to the offset.
+pub(crate) fn tangent_body<S: XDom, C: Curve<S, N, D>, const N: usize, const D: usize>(cx: &mut Cx, p: &[[S; D]; N], off: &[S; D], k: i32, t: S) -> CaseResult {
     let n = N - 1;
     let p = *p;
     classify_param(cx, t);
@@ -724,9 +726,15 @@ pub(crate) fn tangent_body<S: XDom, C: Curve<S, N, D>, const N: usize, const D: 
     if col {
         cx.label("collinear");
     }
-    sample!(cx, "{} {} P={:?} * 2^{} t={:?}", S::NAME, C::NAME, p, k, t);
+    sample!(cx, "{} {} P=({:?} + {:?}) * 2^{} t={:?}", S::NAME, C::NAME, p, off, k, t);
     let (up, inv) = (p2::<S>(k), p2::<S>(-k));
-    let c = C::build(&map_pts(&p, |q| mul_pt(q, up)));
+    let c = C::build(&map_pts(&p, |q| {
+        let mut q = *q;
+        for j in 0..D {
+            q[j] = q[j] + off[j];
+        }
+        mul_pt(&q, up)
+    }));
     let d = or::hodograph(&p, t);
     let mut len2 = S::zero();
     for j in 0..D {
@@ -877,6 +885,8 @@ pub fn property() -> Property {
     const REGIME_CORE: &str = "all relations of the core check (evaluate, derivative, split, matrix(), reversed/reverse, flipped_*/flip_* and their in-place twins applied twice, From<LineSegment>/From<Range>, containers) on degenerate control polygons (point curve, doubled controls, palindromic, closed, evenly spaced on a line, on an axis / in a coordinate plane, {-1,0,1} coordinates, one control point 2^-e smaller), parameters exactly 0 / 1 / 1/2, +-2^-e, 1 +- 2^-e, +-2^e(1+f), u = t, and all lengths scaled exactly by 2^k (results scaled back exactly, tolerance relative to the scaled magnitude)";
     const REGIME_ELEVATE: &str = "into_cubic / From<Quadratic> on the same degenerate polygons, parameter regimes and 2^k length scales";
     const REGIME_TANGENT: &str = "normalized_tangent on the same degenerate polygons, parameter regimes and 2^k length scales (|k| limited so that |C'(t)|^2 stays in the normal float range): unit, along evaluate_derivative, independent of k";
+    const TRANSLATED: &str = "small dyadic shape far from the origin: control points (offset + shape) * 2^k, shape integer |m| <= 16 lattice units, offset +-{1, 5/4, 3/2} * 2^(P-gap) lattice units per axis (one ulp of the offset = 2^-gap units, gap from 0), all exactly representable. Translation-invariant clauses relative to the SHAPE: evaluate_derivative = hodograph of the untranslated shape (curve, reversed, flipped_* / flip_*, 2D<->3D converted, pure-translation-matrix image; = vek's derivative of the untranslated curve), normalized_tangent; pure translation matrices (to the origin, from the origin, by lattice units; Mat3 on 2D / Mat4 on 3D, both layouts, fields and translation_2d/3d) give the exact control points; covariant clauses (evaluate, split, reversal, flips, From<LineSegment>, containers) relative to the offset through the core relations";
+    const TRANSLATED_ELEVATE: &str = "into_cubic / From<Quadratic> on the same translated curves (covariant: relative to the offset)";
     const CORE: &str = "evaluate = Bernstein sum = de Casteljau (t also outside [0,1]), C(0)=start, C(1)=end; evaluate_derivative = hodograph = d/dt of the power-basis polynomial; split(t) = de Casteljau subdivision, L(u)=C(tu), R(u)=C(t+(1-t)u), halves meet at C(t); matrix() entries and dot([1,t,..]*M, P) = C(t); reversed/reverse: C(1-t); flipped_*/flip_*; From<LineSegment>/From<Range> = start + t(end-start); into_vecN/tuple/array and From<VecN> keep the order";
     const TRANSFORM: &str = "Mat * curve for every accepted shape in both layouts (2D: Mat2, Mat3 as 2D point; 3D: Mat3, Mat4 as point; last row unrestricted, w is dropped without division as mul_point documents): control points and (M*C)(t) = M applied to C(t); into_2d / into_3d and the From impls";
     const ELEVATE: &str = "into_cubic / From<Quadratic> for Cubic: control points (P0, (P0+2P1)/3, (2P1+P2)/3, P2), same point and same derivative for every t";
@@ -888,6 +898,18 @@ pub fn property() -> Property {
     per_curve_regime!(rat, Rat);
     per_curve_regime!(f64, f64);
     per_curve_regime!(f32, f32);
+    macro_rules! per_curve_translated {
+        ($dom:ident, $S:ty) => {
+            tape2!(concat!("translated-quad2-", stringify!($dom)), TRANSLATED, 192, 4_000, 400_000, translate::translated_case::<$S, QuadraticBezier2<$S>, 3, 2>);
+            tape2!(concat!("translated-quad3-", stringify!($dom)), TRANSLATED, 192, 4_000, 400_000, translate::translated_case::<$S, QuadraticBezier3<$S>, 3, 3>);
+            tape2!(concat!("translated-cubic2-", stringify!($dom)), TRANSLATED, 192, 4_000, 400_000, translate::translated_case::<$S, CubicBezier2<$S>, 4, 2>);
+            tape2!(concat!("translated-cubic3-", stringify!($dom)), TRANSLATED, 192, 4_000, 400_000, translate::translated_case::<$S, CubicBezier3<$S>, 4, 3>);
+            tape2!(concat!("translated-elevate-quad2-", stringify!($dom)), TRANSLATED_ELEVATE, 96, 1_500, 150_000, translate::translated_elevate::<$S, QuadraticBezier2<$S>, 2>);
+            tape2!(concat!("translated-elevate-quad3-", stringify!($dom)), TRANSLATED_ELEVATE, 96, 1_500, 150_000, translate::translated_elevate::<$S, QuadraticBezier3<$S>, 3>);
+        };
+    }
+    per_curve_translated!(f64, f64);
+    per_curve_translated!(f32, f32);
     macro_rules! circle {
         ($name:expr, $f:expr) => {
             checks.push(Check { name: $name, about: CIRCLE, kind: Kind::Index { total: GRID + 1, quick: GRID + 1, thorough: GRID + 1, f: $f } });
@@ -899,7 +921,7 @@ pub fn property() -> Property {
     circle!("circle-cubic3-f32", circle_case::<f32, CubicBezier3<f32>, 3>);
     Property {
         id: "C14",
-        rule: "cases are byte tapes (uniform bytes, fixed seed) decoded to control points (|coord| <= 9, small fractions or continuous floats; 1/16 forced collinear, 1/16 closed), parameters t,u (1/8 special {0,1/2,1}, 3/8 proper fractions, 1/4 continuous in [0,1), 1/4 general in [-3,3]) and matrices (|entry| <= 5); a case is non-trivial when the control points are not collinear and t is not in {0,1/2,1} (tangent checks: additionally |C'(t)| is representable and not tiny); circle checks enumerate the grid t=i/1024; regime checks (structured-*, regime-*): matrices from 12 linear-block classes x {zero, one-axis, general} translation x {affine, (0,..,0,w), one projective entry, general} bottom row (structured-*: 1/4 of the cases on degenerate polygons, 1/4 with regime parameters; regime-*: always), degenerate control polygons from 12 classes, parameters from {exactly 0, 1, 1/2, +-2^-e, 1+-2^-e, +-2^e(1+f), ordinary}, unit of length 2^k with k = 0 in half of the cases and otherwise stratified up to |k| <= 600 (f64) / 48 (f32) / 12 (Rat) (tangent: 300 / 30 / 8); a structured case is non-trivial when additionally not both of its matrices are the identity; distinct = distinct consumed tape prefix / index per check",
+        rule: "cases are byte tapes (uniform bytes, fixed seed) decoded to control points (|coord| <= 9, small fractions or continuous floats; 1/16 forced collinear, 1/16 closed), parameters t,u (1/8 special {0,1/2,1}, 3/8 proper fractions, 1/4 continuous in [0,1), 1/4 general in [-3,3]) and matrices (|entry| <= 5); a case is non-trivial when the control points are not collinear and t is not in {0,1/2,1} (tangent checks: additionally |C'(t)| is representable and not tiny); circle checks enumerate the grid t=i/1024; regime checks (structured-*, regime-*): matrices from 12 linear-block classes x {zero, one-axis, general} translation x {affine, (0,..,0,w), one projective entry, general} bottom row (structured-*: 1/4 of the cases on degenerate polygons, 1/4 with regime parameters; regime-*: always), degenerate control polygons from 12 classes, parameters from {exactly 0, 1, 1/2, +-2^-e, 1+-2^-e, +-2^e(1+f), ordinary}, unit of length 2^k with k = 0 in half of the cases and otherwise stratified up to |k| <= 600 (f64) / 48 (f32) / 12 (Rat) (tangent: 300 / 30 / 8); a structured case is non-trivial when additionally not both of its matrices are the identity; regime-core / regime-elevate, floats: 3/16 of the cases with a huge parameter |t| = 2^e (1+f), e from the ordinary limit up to the largest e with k + n(e+2) + 3n <= maxexp - 1 (half of them in the top eighth of that range), points shrunk to |P| < 1, u in [0,1]; translated-*: shape with integer coordinates |m| <= 16 lattice units, offset +-{1, 5/4, 3/2} * 2^(P-gap) per axis (1/8 zero, 1/8 a lower power of two), gap in 0..4 in half of the cases and 0..P-6 otherwise, |k| <= 300 (f64) / 30 (f32), t ordinary in 3/4 and from the parameter regimes in 1/4 of the cases, non-trivial = shape not collinear and t not in {0,1/2,1}; distinct = distinct consumed tape prefix / index per check",
         assumptions: &[
             "rustc and the proptest runner/shrinker are trusted",
             "c14::oracle (Bernstein sum, de Casteljau, subdivision, power basis, hodograph on plain arrays) and vkit::refmath are the oracle; they never call vek",
@@ -912,6 +934,9 @@ pub fn property() -> Property {
             "regime checks: all lengths of a case are multiplied by an exact power of two before vek sees them and vek's results are multiplied back by the inverse power (both exact), then judged with the moderate-scale bound, so every tolerance is relative to the scaled magnitude; matrix products are normalised by the power of two that brings the bound D*max|linear|*max|P| + max|translation| (times (|t|+|1-t|)^n for curve points) into [1,2)",
             "regime checks: |k| of the unit of length is limited to 600 (f64) / 48 (f32) / 12 (Rat, i128 headroom) so that coordinate (<= 9*2^k) * matrix entry (<= 5*2^20) * (|t|+|1-t|)^n (<= 2^30, twice for split followed by evaluate) stays inside the normal float range; beyond that any implementation overflows or loses bits to subnormals. normalized_tangent squares lengths (vek documents normalized() as self / magnitude(), magnitude() as sqrt(dot)), so |k| <= 300 / 30 / 8 there",
             "regime parameters stop at |t|, |1-t| >= 2^-40 (f64) / 2^-16 (f32) / 2^-10 (Rat) and |t| < 2^13 / 2^9 / 2^7: closer to 0 or 1 a deviation is below the rounding error relative to max|P| that the tolerance model grants every implementation, so nothing could be asserted there",
+            "translated curves: evaluate_derivative and normalized_tangent are asserted to 32 eps of n * max|P(i+1)-P(i)| * (|t|+|1-t|)^(n-1) (the sum of the magnitudes of the hodograph's terms), i.e. relative to the SHAPE, not to the distance from the origin: the derivative of a curve does not depend on where the curve is, differences of neighbouring control points are exact in this regime (Sterbenz; all points are on one lattice), and <= 5 roundings per term follow. A derivative obtained by differentiating evaluate() term by term multiplies the offset by weights that sum to zero and loses an ulp of the OFFSET (100% of the derivative when the shape is a few ulps wide); that is reported",
+            "translated curves: clauses that are only translation-COVARIANT (evaluate, split, elevation, From<LineSegment>; reversal and flips are exact data moves) multiply the offset by Bernstein weights in every implementation, so they are asserted relative to the offset only (through the core relations); pure translation matrices applied to lattice points are asserted exactly (to 16 eps of the shape size): all products are by exactly 0 or 1 and the sum x + v is exactly representable, so every association order (fused or not) is exact",
+            "huge parameters: asserted only where EVERY evaluation order stays in range, i.e. where the sum of the magnitudes of all terms |P| (|t|+|1-t|)^n — which bounds every partial product of weights (t^n, 3(1-t)^2 t, ..) and of weight * point, whatever is multiplied first — is finite with 3 bits per factor to spare for the oracles' own sums: |t| < 2^40 (1.1e12) for f32 cubics, 2^61 (2.3e18) for f32 quadratics, 2^338 (5.6e101) for f64 cubics, 2^508 for f64 quadratics (less by k/n for lengths scaled up by 2^k). Beyond that t^n itself overflows, so whether evaluate() returns the representable value or inf/NaN depends on whether a point or a weight is multiplied first, which neither the property nor the docs prescribe: NOT asserted (f32 cubic t ~ 1e13: t^3 = 1e39 > f32::MAX; f32 quadratic t = 3e19: t^2 = 9e38 > f32::MAX; f64 cubic t = 1e103: t^3 = 1e309 > f64::MAX)",
             "Mat3*2D-curve / Mat4*3D-curve with non-affine bottom rows ((0,..,0,w) with w in {0,-1,2,1/2}, one projective entry, general): still no division, as mul_point / mul_point_2d document; matrices built by vek's constructors are judged on the entries read back through the public fields (the constructors themselves belong to other properties)",
         ],
         checks,
